@@ -27,7 +27,7 @@ COMPONENTS = {"real": ["reb_simulation_integrate_raw, reb_check_exit, reb_run_he
               "simulated": ["events between steps (heartbeat seam: user stop at a chosen boundary)", "call partition (re-entry with the previous call's leftovers)", "wall clock"]}
 ASSUMPTIONS = ["(t0, dt, tmax) triples are input draws (not simulation); the event / re-entry dimension is what the seeded schedule explores",
                "splitting clause only for fixed-step integrators in safe mode with exact_finish_time=0 (C09 allows rounding-level differences when a deferred half step is closed early)"]
-PROBES = ["stop_on_shortened_last_step", "first_step_is_last", "dt_larger_than_interval", "target_behind", "target_equal", "multi_call", "user_stop_event", "escape_event", "no_particles_event", "adaptive_shrunk_last_step", "backward"]
+PROBES = ["stop_on_shortened_last_step", "late_escape_event", "late_encounter_event", "first_step_is_last", "dt_larger_than_interval", "target_behind", "target_equal", "multi_call", "user_stop_event", "escape_event", "no_particles_event", "adaptive_shrunk_last_step", "backward"]
 
 FIXED = ["whfast", "saba", "leapfrog", "janus", "eos", "sei", "none", "mercurius"]
 ADAPTIVE = ["ias15", "bs", "trace"]
@@ -68,7 +68,12 @@ def generate(rng, tier, index):
         events.append(dict(kind="escape"))
     if ev.chance(0.05):
         events.append(dict(kind="noparticles"))
-    return dict(config=cfg, t0=t0, targets=targets, exact=d.choice([0, 1]), events=events)
+    late = None
+    lt = rng.derive("late")
+    if integ in FIXED and lt.chance(0.2):
+        # an exit condition (escape / close encounter) that becomes true for the first time at a LATER step boundary: integrate() has to stop exactly there
+        late = dict(kind=lt.choice(["escape", "encounter"]), horizon=lt.randint(6, 40), exact=lt.choice([0, 1]), pick=lt.randint(0, 1000))
+    return dict(config=cfg, t0=t0, targets=targets, exact=d.choice([0, 1]), events=events, late=late)
 
 
 def shrink(case, still_fails, viol=None):
@@ -296,6 +301,66 @@ def execute(case, ctx):
             pass
     rb.hb_reset()
     L2.verif_hb_stop_at(2**62)
+    # ---- (h) exit condition that becomes true at a later boundary -----------------------------------------------------------------
+    late = case.get("late")
+    if late and not viols and not nopart and not escape:
+        ctx.op(200)
+
+        def measure(s_):
+            raw = rb.particles_raw(s_)
+            n_ = s_.N
+            P = [struct.unpack_from("<3d", raw, i * rb.PART.size) for i in range(n_)]
+            far = max(math.sqrt(x * x + y * y + z * z) for (x, y, z) in P)
+            near = min([math.sqrt((P[i][0] - P[j][0]) ** 2 + (P[i][1] - P[j][1]) ** 2 + (P[i][2] - P[j][2]) ** 2) for i in range(n_) for j in range(i + 1, n_)] or [float("inf")])
+            return far, near
+        try:
+            with rb.quiet():
+                ref = mk()
+                sg = 1.0 if ref.dt > 0 else -1.0
+                hist = [measure(ref) + (ref.t,)]
+                for _k in range(late["horizon"]):
+                    ref.steps(1)
+                    hist.append(measure(ref) + (ref.t,))
+            col = 0 if late["kind"] == "escape" else 1
+            # boundaries at which the quantity sets a new record by a clear margin (the reference synchronises after every step: rounding-level differences only)
+            cands = []
+            for k_ in range(2, len(hist) - 1):
+                prev = [h[col] for h in hist[:k_]]
+                if col == 0 and hist[k_][0] > max(prev) * (1 + 1e-6):
+                    cands.append((k_, math.sqrt(max(prev) * hist[k_][0])))
+                if col == 1 and hist[k_][1] < min(prev) * (1 - 1e-6) and hist[k_][1] > 0:
+                    cands.append((k_, math.sqrt(min(prev) * hist[k_][1])))
+            if cands:
+                k_, D = cands[late["pick"] % len(cands)]
+                with rb.quiet():
+                    L_ = mk()
+                    if col == 0:
+                        L_.exit_max_distance = D
+                    else:
+                        L_.exit_min_distance = D
+                    sd0_ = int(L_.steps_done)
+                    exc_ = None
+                    try:
+                        L_.integrate(hist[-1][2] + sg * 0.3 * dt_user, exact_finish_time=late["exact"])
+                    except (rebound.Escape, rebound.Encounter) as e:
+                        exc_ = type(e).__name__
+                    except (rebound.NoParticles, rebound.Collision, rebound.GenericError, RuntimeError) as e:
+                        exc_ = "other:" + type(e).__name__
+                want = "Escape" if col == 0 else "Encounter"
+                probe("late_%s_event" % late["kind"])
+                taken = int(L_.steps_done) - sd0_
+                if exc_ != want:
+                    viol("status", "exit condition became true at a step boundary but integrate() did not report it", "%s: %s threshold %r first exceeded at boundary %d of %d, integrate(exact=%d) ended with %s after %d steps" % (
+                        integ, late["kind"], D, k_, len(hist) - 1, late["exact"], exc_, taken), key="status:late:%s:missed" % late["kind"])
+                elif taken != k_:
+                    viol("status", "exit condition reported at the wrong step boundary", "%s: %s threshold %r first exceeded at boundary %d, reported after %d steps (t %r, expected %r)" % (
+                        integ, late["kind"], D, k_, taken, L_.t, hist[k_][2]), key="status:late:%s:boundary" % late["kind"])
+                elif fixed and struct.pack("<d", abs(L_.dt)) != struct.pack("<d", dt_user):
+                    viol("dt", "user step size not restored", "%s: after %s at boundary %d dt is %r (expected %r)" % (integ, want, k_, L_.dt, dt_user), key="dt:restore:after-exit")
+        except (rebound.Escape, rebound.NoParticles, rebound.Encounter, rebound.Collision, rebound.GenericError, RuntimeError):
+            pass
+        rb.hb_reset()
+        L2.verif_hb_stop_at(2**62)
     nsteps = int(sim.steps_done - steps_total0)
     sig = None
     if not viols and (len(case["targets"]) > 1 or evs) and nsteps >= 2:
